@@ -95,7 +95,11 @@ def select(prop, tier, seed):
         groups = {}
         for s in specs:
             if s["pick"]:
-                g, k = s["pick"].split(":")
+                # pick=group:k[@P1+P2]: the restriction applies only when checking P1 or P2
+                pk, _, only = s["pick"].partition("@")
+                if only and prop not in only.split("+"):
+                    continue
+                g, k = pk.split(":")
                 groups.setdefault((g, int(k)), []).append(s)
         drop = set()
         for (g, k), members in groups.items():
